@@ -1029,7 +1029,7 @@ mod verif_inflate_core {
         }
     }
 
-    /// decompress_fast, bounded stand-in: at most 3 symbols before the (modelled) table yields end-of-block.
+    /// decompress_fast, bounded stand-in: at most 5 symbols before the (modelled) table yields end-of-block.
     #[kani::proof]
     #[kani::unwind(4)]
     #[kani::stub(HuffmanTable::lookup, model_lookup)]
@@ -1037,7 +1037,7 @@ mod verif_inflate_core {
     #[kani::stub(transfer, model_transfer)]
     fn k_decompress_fast_bounded() {
         const BIG: usize = 320;
-        LK_LIMIT.store(3, ::core::sync::atomic::Ordering::Relaxed);
+        LK_LIMIT.store(5, ::core::sync::atomic::Ordering::Relaxed);
         let mut r = any_decompressor(DecodeLitlen);
         let mut l = any_l();
         kani::assume(l.num_bits <= 56);
